@@ -15,7 +15,8 @@ import tempfile
 import time
 from pathlib import Path
 
-VERIF = Path("/verif")
+# the directory of this development: /verif, or a snapshot of it (vp run) - everything is relative to it
+VERIF = Path(os.environ.get("VERIF_ROOT") or Path(__file__).resolve().parents[2])
 REPO = Path("/repo")
 COQ = VERIF / "coq"
 PY = "/venv/bin/python"
